@@ -12,6 +12,7 @@ def env0 : Env where
   multi := fun _ _ _ _ _ => false
   bracket := fun _ => none
   seqPos := fun _ _ _ _ _ => true
+  opq := fun c d => c.length % 2 == d.id % 2
   index := [doc 0 [[97], [98]], doc 1 [[98], [112]]]
 
 theorem env0_plain : ∀ d ∈ env0.index, d.Plain := by
